@@ -90,6 +90,32 @@ BinOp(op, a, b, log) ==
               ELSE Ok(Bool(CASE op = "and" -> a.b /\ b.b [] op = "or" -> a.b \/ b.b
                              [] op = "xor" -> a.b # b.b), log)
 
+\* ---- host functions that WRITE variables -------------------------------------
+\* A host function may write the storer while an expression is being evaluated (the storer is
+\* shared between host and runner).  "bump" adds 1 to the number variable BumpVar and returns the
+\* new value.  The effect of a call is a function of the call log, so the store seen after a
+\* sub-expression has been evaluated is EffStore(store, its log): operands evaluated later see
+\* the write, operands evaluated earlier keep the value they had when they were read (C02).
+BumpVar == "x"
+Bumpable(st) == BumpVar \in DOMAIN st /\ st[BumpVar].t = "n" /\ st[BumpVar].d # 0
+                /\ st[BumpVar].n + st[BumpVar].d <= MaxNum /\ st[BumpVar].n > -MaxNum
+Bumped(v) == RAdd(v, IntV(1)).v
+RECURSIVE EffStore(_, _, _)
+EffStore(st, log, i) ==
+  IF i > Len(log) THEN st
+  ELSE IF log[i].name = "bump" /\ log[i].args = <<>> /\ Bumpable(st)
+       THEN EffStore([st EXCEPT ![BumpVar] = Bumped(@)], log, i + 1)
+       ELSE EffStore(st, log, i + 1)
+\* the storer writes these effects are, in order
+RECURSIVE EffWriteLog(_, _, _)
+EffWriteLog(st, log, i) ==
+  IF i > Len(log) THEN <<>>
+  ELSE IF log[i].name = "bump" /\ log[i].args = <<>> /\ Bumpable(st)
+       THEN <<[var |-> BumpVar, val |-> Bumped(st[BumpVar])]>>
+            \o EffWriteLog([st EXCEPT ![BumpVar] = Bumped(@)], log, i + 1)
+       ELSE EffWriteLog(st, log, i + 1)
+Eff(env, log) == IF log = <<>> THEN env ELSE [env EXCEPT !.store = EffStore(@, log, 1)]
+
 \* ---- host and built-in functions ------------------------------------------
 \* behaviour classes of env.funcs[name]:
 \*   "id"     raw probe: returns its single argument (any type); error if not 1 arg
@@ -103,6 +129,11 @@ CallFn(kind, args, env, log) ==
   CASE kind = "id" -> IF Len(args) = 1 THEN Ok(args[1], log) ELSE Err(log)
     [] kind = "boom" -> Err(log)
     [] kind = "noret" -> Ok(Unset, log)
+    \* (env already reflects the effects of evaluating the arguments; `log` already ends with this call)
+    [] kind = "bump" -> IF Len(args) # 0 THEN Err(log)
+                        ELSE IF BumpVar \notin DOMAIN env.store \/ env.store[BumpVar].t # "n" THEN Err(log)
+                        ELSE IF ~Bumpable(env.store) THEN Oos(log)
+                        ELSE Ok(Bumped(env.store[BumpVar]), log)
     \* host functions registered through the converting registration with parameters of NAMED
     \* string / bool / int types: typed identities (wrong type or count: error, never a panic)
     [] kind = "idstr" -> IF Len(args) = 1 /\ IsStr(args[1]) THEN Ok(args[1], log) ELSE Err(log)
@@ -172,7 +203,7 @@ RECURSIVE EvalArgs(_, _, _, _)
 \* evaluates args[i..] left to right; acc = values so far; log = calls so far
 EvalArgs(args, i, env, acc) ==
   IF i > Len(args) THEN [st |-> "ok", vals |-> acc.vals, log |-> acc.log]
-  ELSE LET r == Eval(args[i], env) IN
+  ELSE LET r == Eval(args[i], Eff(env, acc.log)) IN
        IF r.st # "ok" THEN [st |-> r.st, vals |-> acc.vals, log |-> acc.log \o r.log]
        \* a function that returned nothing cannot be passed on as a value (C06)
        ELSE IF r.v.t = "u" THEN [st |-> "err", vals |-> acc.vals, log |-> acc.log \o r.log]
@@ -200,7 +231,7 @@ Eval(e, env) ==
          ELSE IF e.op \in {"and", "or"} /\ ~IsBool(l.v) THEN Err(l.log)
          ELSE IF e.op = "and" /\ ~l.v.b /\ ~Bug.eagerAnd THEN l   \* left decides: right not evaluated
          ELSE IF e.op = "or" /\ l.v.b THEN l
-         ELSE LET r == Eval(e.r, env) IN
+         ELSE LET r == Eval(e.r, Eff(env, l.log)) IN     \* the right operand sees what the left one wrote
               IF r.st # "ok" THEN R(r.st, Unset, l.log \o r.log)
               ELSE IF r.v.t = "u" THEN Err(l.log \o r.log)
               ELSE BinOp(e.op, l.v, r.v, l.log \o r.log)
@@ -210,7 +241,7 @@ Eval(e, env) ==
          ELSE LET kind == FnKind(e.fn, env)
                   log2 == IF e.fn \in env.probes
                           THEN Append(a.log, [name |-> e.fn, args |-> a.vals]) ELSE a.log
-              IN CallFn(kind, a.vals, env, log2)
+              IN CallFn(kind, a.vals, Eff(env, a.log), log2)
 
 \* a value is required (line interpolation, set, condition, argument): a
 \* function that returns nothing used as a value is a script-level fault (C06)
